@@ -36,6 +36,8 @@ import PS.Proofs.Enum.HeapSearch
 import PS.Proofs.Enum.GInst
 import PS.Proofs.Enum.UUnamb
 import PS.Proofs.Enum.UFrame
+import PS.Proofs.Enum.UCompleteRun
+import PS.Proofs.Enum.UOrderCheck
 namespace PS.C12HS
 open PS PS.G
 
@@ -267,6 +269,28 @@ theorem C12_HS_U_rejected_deleted (s : UHS.St U π) (p q : Prog) :
   · rename_i h; exact ⟨by simpa using h, fun hq => hq⟩
   · exact ⟨by simp, fun hq => List.mem_append_left _ hq⟩
 
+/-- **C12, COMPLETENESS RELATIVE TO THE FILTER, unambiguous-grammar machine** (acyclic unambiguous grammars,
+    several start symbols, no threshold; any priority type with a monotone `combine`): once the generator
+    has stopped, every member all of whose sub-programs (itself included) the filter accepts — `HG.clean` —
+    was yielded.  The rejected programs enter `deleted` at the yield site and are skipped by the pop loop of
+    every non-terminal (`while succ in self.deleted`), their successors still being pushed: the order and
+    completeness invariants (`UHS.NTInv`, `UHS.CInv`: what was ever pushed is in the heap, was popped, or was
+    skipped as a rejected program) are kept by the skip branch too (`UHS.big_order`, case `pop_deleted`),
+    and an exhausted non-terminal has popped every clean derivable program (`UHS.exhausted_complete`). -/
+theorem C12_HS_U_filter_complete (E : UHS.Env U π) (rank : UHS.UNT U → Nat) (Good : π → Prop) (R : RHyp E rank Good)
+    (d : UHS.UNT U) (fuel k : Nat) (s' : UHS.St U π) (out : List Prog)
+    (h : UHS.take E fuel k (UHS.St.empty E.G) [] = some (s', out, true)) (p : Prog)
+    (hp : PS.U.genU (E.G.toUCFG d) p = true) (hcl : PS.HG.clean E.filter p = true) : p ∈ out := by
+  obtain ⟨nt, w, hw, hd⟩ := (derStart_iff_genU E d p).mpr hp
+  exact take_complete R fuel k s' out h p nt w hw hd hcl
+
+/-- with a filter installed the yielded keys are still in best-first order (every fuel, every prefix) -/
+theorem C12_HS_U_filter_sorted (E : UHS.Env U π) (rank : UHS.UNT U → Nat) (Good : π → Prop) (R : RHyp E rank Good)
+    (fuel k : Nat) (s' : UHS.St U π) (out : List Prog) (b : Bool)
+    (h : UHS.take E fuel k (UHS.St.empty E.G) [] = some (s', out, b)) :
+    out.Pairwise (fun p q => ∀ kp kq, StartKey E p kp → StartKey E q kq → E.ops.lt kq kp = false) :=
+  take_sorted R fuel k s' out b h
+
 /-! non-vacuity: three start symbols, two alternatives for `+` at `S2`; the filter rejects the leaf `1` -/
 def mT : Ty := .base "int"
 def m0 : UHS.UNT Nat := (mT, 0)
@@ -287,6 +311,14 @@ example : ∀ k s' out b, UHS.take mE 60 k (UHS.St.empty mG) [] = some (s', out,
     (∀ p ∈ out, PS.U.genU (mG.toUCFG m0) p = true) ∧ (∀ p ∈ out, mFilter p = true) ∧ out.Nodup :=
   fun k s' out b h => C12_HS_U_filter_safe mE (GHyp.of_checks mE (by decide) (by decide) rfl) mRank
     (acyclic_of_check mE mRank (by decide)) (sdisj_of_budet mE (budet_of_check mE (by decide))) (by decide) m0 60 k s' out b h
+
+theorem mE_rhyp : RHyp mE mRank (fun v : Rat => 0 ≤ v) :=
+  rhyp_prob mE mRank rfl rfl (by decide) (by decide) (by decide) (by decide) (by decide) (by decide) (by decide)
+    (by decide +kernel) (by decide)
+
+example : ∀ s' out, UHS.take mE 60 30 (UHS.St.empty mG) [] = some (s', out, true) → ∀ p,
+    PS.U.genU (mG.toUCFG m0) p = true → PS.HG.clean mFilter p = true → p ∈ out :=
+  fun s' out h p hp hcl => C12_HS_U_filter_complete mE mRank _ mE_rhyp m0 60 30 s' out h p hp hcl
 
 /-- what the machine does on the example: the leaf `1` is rejected when the start symbol `S0` hands it
     over; the 20 other programs that contain it are still yielded (the statement is an inclusion) -/
